@@ -150,21 +150,41 @@ class Pat:
         else:
             self.node = st
 
-    def match(self, node, binds=None):
+    def _exact(self, node, binds=None):
         b = dict(binds or {})
         if _match(self.node, node, b):
-            return b
+            return {k: v for k, v in b.items() if not k.startswith(("__", "~"))}
         return None
 
-    def find(self, root, *, nested=True):
-        """All (node, bindings) under root (root included) that match."""
+    def match(self, node, binds=None):
+        b = self._exact(node, binds)
+        if b is not None:
+            return b
+        sb = _soft_binds(self.node, node)
+        if sb is not None:
+            sb.update(binds or {})
+            return self._exact(node, sb)
+        return None
+
+    def _scan(self, root, nested, binds):
         out = []
         it = ast.walk(root) if nested else _walk_same_scope(root)
         for n in it:
             if type(n) is type(self.node) or _is_meta(self.node):
-                b = self.match(n)
+                b = self._exact(n, binds)
                 if b is not None:
                     out.append((n, b))
+        return out
+
+    def find(self, root, *, nested=True):
+        """All (node, bindings) under root (root included) that match.  If nothing matches exactly,
+        a second pass lets pattern names that no longer occur anywhere in the enclosing function stand
+        for a (consistently) renamed local variable -- see _soft_binds."""
+        out = self._scan(root, nested, None)
+        if not out:
+            soft = _soft_binds(self.node, root)
+            if soft is not None:
+                out = self._scan(root, nested, soft)
         out.sort(key=lambda nb: (getattr(nb[0], "lineno", 0), getattr(nb[0], "col_offset", 0)))
         return out
 
@@ -181,7 +201,81 @@ def _is_meta(p):
     return isinstance(p, ast.Name) and p.id.startswith("M_")
 
 
+import builtins as _builtins
+
+_BUILTIN_NAMES = frozenset(dir(_builtins))
+_SCOPE_CACHE: dict = {}
+
+
+def _outer_function(node):
+    n, outer = node, None
+    while n is not None:
+        if isinstance(n, (ast.FunctionDef, ast.AsyncFunctionDef)):
+            outer = n
+        n = getattr(n, "_parent", None)
+    return outer
+
+
+def _scope_facts(fn):
+    """(every identifier occurring in fn, names bound locally in fn incl. parameters and nested defs)."""
+    got = _SCOPE_CACHE.get(id(fn))
+    if got is not None and got[0] is fn:
+        return got[1], got[2]
+    occurring, bound = set(), set()
+    for x in ast.walk(fn):
+        if isinstance(x, ast.Name):
+            occurring.add(x.id)
+            if isinstance(x.ctx, (ast.Store, ast.Del)):
+                bound.add(x.id)
+        elif isinstance(x, ast.arg):
+            occurring.add(x.arg)
+            bound.add(x.arg)
+        elif isinstance(x, (ast.FunctionDef, ast.AsyncFunctionDef)) and x is not fn:
+            bound.add(x.name)
+        elif isinstance(x, ast.ExceptHandler) and x.name:
+            bound.add(x.name)
+        elif isinstance(x, (ast.Global, ast.Nonlocal)):
+            occurring.update(x.names)
+        elif isinstance(x, ast.alias):
+            occurring.add((x.asname or x.name).split(".")[0])
+    _SCOPE_CACHE[id(fn)] = (fn, occurring, bound)
+    return occurring, bound
+
+
+def _soft_binds(pattern_node, target):
+    """Rename tolerance.  A name of the pattern that occurs nowhere in the function that contains
+    ``target`` (and is no builtin, module-level name or import there) can only have been renamed: it may
+    then match one local variable of that function, consistently, and two such names never match the
+    same variable.  Names that still occur keep their meaning, so a swapped pair of operands does not
+    match.  Returns the initial bindings for such a soft match, or None if there is nothing soft."""
+    fn = _outer_function(target)
+    if fn is None:
+        return None
+    occurring, bound = _scope_facts(fn)
+    try:
+        mod = module_of(fn)
+        globs = set(mod.defs) | set(mod.imports) | {t.id for st in mod.tree.body if isinstance(st, ast.Assign) for t in st.targets if isinstance(t, ast.Name)}
+    except Exception:
+        globs = set()
+    pnames = {x.id for x in ast.walk(pattern_node) if isinstance(x, ast.Name) and not x.id.startswith("M_")}
+    soft = {nm for nm in pnames if nm not in occurring and nm not in _BUILTIN_NAMES and nm not in globs and nm not in ("self", "cls")}
+    if not soft:
+        return None
+    return {"__soft__": soft, "__locals__": bound - pnames, }
+
+
 def _match(p, n, b) -> bool:
+    soft = b.get("__soft__")
+    if soft and isinstance(p, ast.Name) and p.id in soft:
+        if not isinstance(n, ast.Name) or n.id not in b["__locals__"]:
+            return False
+        key = "~" + p.id
+        if key in b:
+            return b[key] == n.id
+        if any(k.startswith("~") and v == n.id for k, v in b.items()):
+            return False
+        b[key] = n.id
+        return True
     if _is_meta(p):
         if not isinstance(n, ast.AST):
             return False
